@@ -16,15 +16,18 @@ PROP = {'kani_groups': ['hk_batcher'],
            'left by earlier batches, processor outcome per attempt in {Ok, Err no-retry, Err retry(any remainder of <= 2 (3) '
            'items incl. empty)}, panic plan over all guarded calls; Capacity: any 32-entry history',
  'outside': 'CANNOT BE ENCODED (Kani executes one thread, no OS): batcher/src/tokio.rs and web.rs entirely; the '
-            'blocking wrappers of batcher/src/sync.rs (Trigger/condvar wait_timeout, Instant, thread spawn/join, its '
-            'block_on); wall-clock time; real unwinding; the std mutex itself (assumed). The multi-step composition '
+            'real condition variable, Instant, thread spawn/join of batcher/src/sync.rs (its blocking wrappers run on '
+            'stand-ins, see stubs); wall-clock time; real unwinding; the std mutex itself (assumed). The multi-step composition '
             '(any number of senders, any interleaving, histories of any length) is a WRITTEN induction over the '
             'solver-checked one-step obligations (harness/hk_batcher/src/lib.rs), not a solver result; a bounded '
             "multi-step schedule harness did not fit CBMC (20 min symex, no verdict). Also outside: the claim 'under "
             "every interleaving' is reduced to 'every step is atomic under the (assumed) mutex and correct from "
             "every state'; items pending when the receiver is torn down (documented exception); Channel impls of "
             'emit_file / emit_otlp; retry budgets > 2 (Retry itself is decided for every budget by c08_q_k_retry)',
- 'stubs': ['batcher:mutex — std::sync::Mutex in batcher/src/lib.rs -> single-owner cell with the same lock() API, an '
+ 'stubs': ["batcher:sync-* — batcher/src/sync.rs: std::sync::{Condvar, Mutex} and std::time::Instant -> stand-ins: Instant reads a harness clock (whole seconds); Condvar::wait_timeout(guard, dur) releases the guard, runs the harness environment step (time passes; the batch carrying the parked callbacks may finish, which runs them) and returns woken / timed out (spurious wake-ups included); assumed of the std condvar: a wait reported as timed out lasted at least dur; the Trigger's own mutex is a single-owner cell",
+           'batcher:send-or-wait-pub — visibility only: the private Sender::send_or_wait is made pub in the scratch tree (harness module s_sow)',
+           "the mutex stand-in also counts the guards alive (HELD): every harness callback standing for user code (flush / empty callbacks, samplers, processors, waits, the condvar environment step) asserts HELD == 0 — user code never runs inside the channel's critical section",
+           'batcher:mutex — std::sync::Mutex in batcher/src/lib.rs -> single-owner cell with the same lock() API, an '
            'acquisition counter and a hook called before every acquisition; asserts the lock is never re-acquired '
            "while held. Mutual exclusion itself is std's contract and is ASSUMED",
            'batcher:catch-unwind — std::panic::catch_unwind -> panic plan: the i-th guarded call either runs its '
